@@ -117,10 +117,20 @@ def softDelFault (st : St) : St × String :=
       let (st', out) := step st (.rawConfig p.minDec p.minEnc)
       (st', showOut out)
 
+/-- marker in the driver's copy of `failPut` (the model never sees it): the Commit of the next request fails -/
+def commitFaultMark : Nat := 99
+
 def stepLine (st : St) (fs : List String) : St × String :=
   match fs with
   | ["softdel-fault", _] => softDelFault st
+  | ["failcommit"] => ({ st with failPut := commitFaultMark }, "ok")
   | _ =>
+  if st.failPut = commitFaultMark then
+    -- `Transit.stepCF … true`: the request answers with the commit error and nothing of it is visible
+    match parseOp? fs with
+    | some op => (({ st with failPut := 0 }, showOut (stepCF { st with failPut := 0 } true op).2))
+    | none => (st, "bad-op")
+  else
   match parseBatch? fs with
   | some items =>
     let (st', r) := batch st items
